@@ -276,9 +276,11 @@ class HyperRAMInterface(Elaboratable):
                 ]
                 m.d.comb += self.write_ready.eq(1),
 
-                # If we just finished a register write, we're done -- there's no need for recovery.
+                # If we just finished a register write, we're done. Still pass through RECOVERY, which
+                # de-asserts CS: returning straight to IDLE with a request pending would start the next
+                # transaction without ever releasing CS.
                 with m.If(is_register):
-                    m.next = 'IDLE'
+                    m.next = 'RECOVERY'
 
                 with m.Elif(self.final_word):
                     m.next = 'RECOVERY'
